@@ -11,11 +11,13 @@ CHECKS = {
     "C01": ("harness.checks.core_props", "C01"),
     "C02": ("harness.checks.core_props", "C02"),
     "C03": ("harness.checks.core_props", "C03"),
+    "C04": ("harness.checks.c04", "C04"),
     "C05": ("harness.checks.klass_props", "C05"),
     "C07": ("harness.checks.klass_props", "C07"),
     "C08": ("harness.checks.klass_props", "C08"),
     "C09": ("harness.checks.klass_props", "C09"),
     "C10": ("harness.checks.c10", "C10"),
+    "C11": ("harness.checks.c11", "C11"),
     "C12": ("harness.checks.c12", "C12"),
     "C13": ("harness.checks.sys_props", "C13"),
     "C14": ("harness.checks.sys_props", "C14"),
